@@ -463,6 +463,12 @@ func (doc *T) derefPaths(paths map[string]*PathItem, refNameResolver RefNameReso
 			// internalized where it is defined, and inlining it could close a cycle
 			continue
 		}
+		if rootRef := doc.rootPathOfCopy(ops); ops.Ref != "" && rootRef != "" {
+			// a referenced path item that leads back to a path of this document (a callback naming the
+			// path that declares it, in an external file): inlining it would close a pointer cycle
+			ops.Ref = rootRef
+			continue
+		}
 		pathIsExternal := parentIsExternal || isExternalRef(ops.Ref, false)
 		// inline full operations
 		ops.Ref = ""
@@ -498,6 +504,20 @@ func (doc *T) derefPaths(paths map[string]*PathItem, refNameResolver RefNameReso
 			}
 		}
 	}
+}
+
+// rootPathOfCopy returns a reference to the path of this document whose path item shares its
+// operations with pathItem, when pathItem is not that path item itself.
+func (doc *T) rootPathOfCopy(pathItem *PathItem) string {
+	for _, op := range pathItem.Operations() {
+		if ref, ok := doc.visited.rootPath[op]; ok {
+			if doc.Paths != nil && doc.Paths.Value(unescapeRefString(strings.TrimPrefix(ref, "#/paths/"))) == pathItem {
+				return ""
+			}
+			return ref
+		}
+	}
+	return ""
 }
 
 // InternalizeRefs removes all references to external files from the spec and moves them
@@ -586,5 +606,13 @@ func (doc *T) InternalizeRefs(ctx context.Context, refNameResolver func(*T, Comp
 		}
 	}
 
+	for name, pathItem := range doc.Paths.Map() {
+		if pathItem == nil {
+			continue
+		}
+		for _, op := range pathItem.Operations() {
+			doc.visited.rootPath[op] = "#/paths/" + strings.ReplaceAll(strings.ReplaceAll(name, "~", "~0"), "/", "~1")
+		}
+	}
 	doc.derefPaths(doc.Paths.Map(), refNameResolver, false)
 }
